@@ -2,6 +2,7 @@
   C03 — walks terminate and never re-request, whatever the agent answers.  Property theorems
   about the Python-faithful model (`Snmp.Walk`), for an *arbitrary* exchange function.
 -/
+import Snmp.Gen.Facts
 import Snmp.Model.Walk
 import Snmp.Lemmas.WalkBound
 import Snmp.Lemmas.BulkBound
@@ -182,5 +183,11 @@ theorem C03_bulk_bound (x : Exchange) (roots : List Oid) (size fuel : Nat) (U : 
 /-- the hypotheses are satisfiable and the bound is tight for an agent that keeps advancing: a
     three-OID universe, one root, three instances — four requests -/
 example : PrefixFree [[1,3]] := by unfold PrefixFree; simp
+
+
+/-- termination rests on these shapes of the code (generated from the AST): the walk loop ends on
+    `NoSuchOID` / `FaultySNMPImplementation`, the completion loop of the bulk fetcher ends when a
+    completion request returns nothing -/
+theorem C03_loop_shapes : Snmp.Gen.walkLoopShape = true ∧ Snmp.Gen.bulkFetcherShape = true := by decide
 
 end Snmp.Props.C03
